@@ -448,6 +448,15 @@ def checkBids (p c : Obs) : CM Unit := do
     match c.s.views[i]? with
     | none => pure ()
     | some cv =>
+      -- C05: a fixed-price bid that has just been accepted keeps its bidder's total, over ALL their
+      -- bids in this auction, within the allowance as it stands at that moment (what is accepted is
+      -- what is allocated at settlement)
+      if pv.a.type == .fixed then
+        for nb in cv.bids.filter (fun x => !(pv.bids.any (·.id == x.id))) do
+          count "C05" "accepted-within-cap"
+          let tot := sumOver cv.bids nb.bidder (·.toSelling pv.a.payDenom)
+          if tot > capOf pv.allowed nb.bidder then
+            viol "C05" "over-cap:accepted" s!"auction {i}: `{b.opLine}` accepted although u{nb.bidder}'s bids then buy {tot}, allowance {capOf pv.allowed nb.bidder}"
       for pb in pv.bids do
         count "C11" "bid-monotone"
         match cv.bids.find? (·.id == pb.id) with
